@@ -29,6 +29,8 @@ func (c Cfg) RefLayer(n uint64) int {
 	case "sk":
 		js, _ := json.Marshal(SK{strKey(n)})
 		return refUintLayer(crc64.Checksum(js, crcTab), uint64(c.BF))
+	case "skc":
+		return refUintLayer(crc64.Checksum([]byte(`"c:`+strKey(n)+`"`), crcTab), uint64(c.BF))
 	case "i64", "int":
 		v := int64(n) - i64bias
 		if v < 0 {
@@ -44,7 +46,7 @@ func (c Cfg) RefLayer(n uint64) int {
 }
 
 var allBF = []uint{2, 3, 4, 16}
-var allKK = []string{"vk", "u64", "i64", "str", "bytes", "int", "uint", "sk"}
+var allKK = []string{"vk", "u64", "i64", "str", "bytes", "int", "uint", "sk", "skc"}
 var allVK = []string{"u64", "bytes", "str", "ptr", "iface", "long"}
 var allCache = []string{"none", "big", "tiny"}
 
@@ -55,6 +57,9 @@ func RandCfg(r *rand.Rand) Cfg {
 	// vk is the workhorse: it controls layers exactly
 	if r.Intn(2) == 0 {
 		c.KK = "vk"
+	}
+	if c.KK == "skc" {
+		c.Fmt = "bin" // the custom marshaler is driven per key: compact binary format only
 	}
 	if c.VKind == "long" && r.Intn(3) != 0 {
 		c.VKind = "u64" // the long values (up to 16 KiB each) are costly: one configuration in eighteen
@@ -135,7 +140,7 @@ func Universe(r *rand.Rand, c Cfg, n int) []uint64 {
 				v = -v
 			}
 			add(uint64(v + i64bias))
-		case "str", "sk":
+		case "str", "sk", "skc":
 			add(uint64(r.Intn(26 * 26 * 26 * 26 * 26)))
 		case "bytes":
 			add(uint64(r.Intn(1 << 24)))
